@@ -94,12 +94,47 @@ def check_name(sm_name, ex_name, region="local", account="0123456789"):
     return fails
 
 
+def resource_arns():
+    """ARNs the engine documents for Task Resources and for machines handed in by value: colon-typed, with or without region and account."""
+    out = ["arn:aws:states:::states:startExecution", "arn:aws:states:::states:startExecution.sync", "arn:aws:states:::states:startExecution.sync:2",
+           "arn:aws:states:::states:startExecution.waitForTaskToken", "arn:aws:states:::aws-sdk:sfn:startSyncExecution", "arn:aws:states:local::rpcmessage:invoke",
+           "arn:aws:states:local::rpcmessage:invoke.waitForTaskToken", "arn:aws:rpcmessage:local::function:f", "arn:aws:lambda:us-east-1:123456789012:function:f"]
+    for region in ("", "local", "eu-west-2"):
+        for account in ("", "0123456789"):
+            for rt, res in (("stateMachine", "m"), ("stateMachine", "M-3_x.y"), ("execution", "m:e"), ("execution", "m:00000000-0000-4000-8000-000000000001"), ("function", "f"), ("activity", "a")):
+                out.append("arn:aws:states:%s:%s:%s:%s" % (region, account, rt, res))
+    return sorted(set(out))
+
+
+def check_resource_arn(text):
+    arn, ra, rb = mods()
+    fails = []
+    parts = text.split(":", 6)
+    want = {"arn": parts[0], "partition": parts[1], "service": parts[2], "region": parts[3], "account": parts[4], "resource_type": parts[5], "resource": parts[6]}
+    try:
+        p = arn.parse_arn(text)
+        back = arn.create_arn(p)
+    except Exception as e:
+        return [("resource-arn-raises:%s" % type(e).__name__, "%r: %r" % (text, e))]
+    if p != want:
+        fails.append(("resource-arn-parse", "parse_arn(%r) = %r, the parts it was built from are %r" % (text, p, want)))
+    if back != text:
+        fails.append(("resource-arn-rebuild", "create_arn(parse_arn(%r)) = %r" % (text, back)))
+    return fails
+
+
 def nontrivial_name(n):
     return len(n) >= 79 or any(c in n for c in ".-_" + FORBIDDEN)
 
 
 def pure_shard(k, seed, tier, nshards=1, maxlen=3):
     camp = Campaign(PID, rule=RULE, tier=tier, seed=seed)
+    if k == 0:
+        for text in resource_arns():
+            case = {"kind": "resource-arn", "arn": text}
+            camp.case(case, nontrivial="::" in text, classes=["resource-arn", "blank-region-or-account" if "::" in text else "full"])
+            for b, d in check_resource_arn(text):
+                camp.fail(b, case, d)
     i = 0
     for n in range(0, maxlen + 1):
         for tup in itertools.product(ALPHABET, repeat=n):
@@ -241,6 +276,8 @@ def engine_shard(k, seed, tier, examples=10):
 def replay_case(case):
     if case["kind"] == "engine":
         return check_engine(case["sm"], case["ex"], case["mode"])
+    if case["kind"] == "resource-arn":
+        return check_resource_arn(case["arn"])
     return check_name(case["sm"], case["ex"], case.get("region", "local"), case.get("account", "0123456789"))
 
 
